@@ -26,10 +26,17 @@ import (
 const c07Stream = "ls"
 
 var c07mix = []weighted{
-	{"report", 40}, {"shrink", 8}, {"expand", 8}, {"sleep", 16}, {"stepdown", 4}, {"stale-report", 6}, {"stale-shrink", 3}, {"stale-expand", 3},
+	{"report", 40}, {"shrink", 8}, {"expand", 8}, {"sleep", 16}, {"stepdown", 4}, {"stale-report", 6}, {"stale-shrink", 3}, {"stale-expand", 3}, {"failraft", 5},
 }
 
 func genC07(r *simrt.Rand, tier string, idx int) *hx.Program {
+	if r.Pct(12) {
+		// cluster mode: the failover chains of C02 on real replicas; the metadata of every server is
+		// judged at every operation boundary (see c07ClusterBoundary)
+		p := genC02(r, tier, idx)
+		p.P["cluster"] = 1
+		return p
+	}
 	p := &hx.Program{P: map[string]int64{}}
 	p.P["sticky"] = []int64{50, 80, 95}[r.Intn(3)]
 	p.P["lockyield"] = []int64{20, 100}[r.Intn(2)]
@@ -65,7 +72,108 @@ type c07Report struct {
 	lepoch  uint64
 }
 
+// c07Cluster is the state of the metadata monitor of a cluster-mode run.
+type c07Cluster struct {
+	leaderOf map[uint64]string    // leader epoch -> leader, over all servers and the whole run
+	last     map[int]c07State     // simulation node (one incarnation of a server) -> last state read
+	reads    int
+}
+
+// c07ClusterBoundary reads the partition's metadata on every running server (one consistent snapshot
+// under the partition's lock) and judges what the statement says about it: the leader is in the in-sync
+// set, which is a subset of the replicas; on one server the partition epoch and the leader epoch never
+// decrease; a leader epoch has one leader, whichever server reports it and whenever.
+func (m *c07Cluster) boundary(c *cluster, final bool) {
+	h := c.h
+	for _, n := range h.nodes {
+		p := c.partition(n)
+		if p == nil {
+			continue
+		}
+		var st c07State
+		ok := false
+		died := h.do(n.node, "read-meta", func() {
+			simrt.RLock(&p.mu)
+			st.leader, st.lepoch, st.epoch = p.Leader, p.LeaderEpoch, p.Epoch
+			for r := range p.isr {
+				st.isr = append(st.isr, r)
+			}
+			for r := range p.replicas {
+				st.replicas = append(st.replicas, r)
+			}
+			p.mu.RUnlock()
+			ok = true
+		})
+		if died || !ok || !n.up {
+			continue
+		}
+		sort.Strings(st.isr)
+		sort.Strings(st.replicas)
+		m.reads++
+		h.oc.Checks++
+		in := func(xs []string, x string) bool {
+			for _, y := range xs {
+				if y == x {
+					return true
+				}
+			}
+			return false
+		}
+		if st.leader != "" && !in(st.isr, st.leader) {
+			h.fail("C07/invariant", "C07/leader-not-in-isr", "server %s: %s", n.id, st)
+			return
+		}
+		for _, r := range st.isr {
+			if !in(st.replicas, r) {
+				h.fail("C07/invariant", "C07/isr-not-subset-of-replicas", "server %s: %s", n.id, st)
+				return
+			}
+		}
+		if prev, seen := m.last[n.node]; seen && (st.lepoch < prev.lepoch || st.epoch < prev.epoch) {
+			h.fail("C07/epochs", "C07/epoch-decreased", "server %s: before %s, now %s", n.id, prev, st)
+			return
+		}
+		m.last[n.node] = st
+		if st.leader != "" {
+			if l, seen := m.leaderOf[st.lepoch]; seen && l != st.leader {
+				h.fail("C07/epochs", "C07/two-leaders-in-one-epoch", "leader epoch %d had leader %s; server %s now says %s", st.lepoch, l, n.id, st.leader)
+				return
+			}
+			m.leaderOf[st.lepoch] = st.leader
+		}
+	}
+}
+
+func execC07Cluster(t *testing.T, prog *hx.Program, dec *simrt.Decider, verbose bool) *hx.Outcome {
+	m := &c07Cluster{leaderOf: map[uint64]string{}, last: map[int]c07State{}}
+	var c *cluster
+	oc := runH3(t, prog, dec, verbose, int(prog.Param("nodes", 3)), func(h *h3) {
+		c = runCluster(h, clusterHooks{boundary: m.boundary})
+		c.dumpRaft()
+		if !h.stop && h.oc.Trouble == "" && len(h.s.Panics) == 0 {
+			c.finish()
+		}
+	})
+	for i, v := range oc.Viol {
+		if strings.HasPrefix(v.Sig, "panic:") {
+			oc.Viol[i].Clause = "C07/crash"
+			oc.Viol[i].Sig = "C07/crash:" + strings.TrimPrefix(v.Sig, "panic:")
+		}
+	}
+	if oc.Counters == nil {
+		oc.Counters = map[string]int{}
+	}
+	oc.Counters["probe.cluster_mode_runs"] = 1
+	oc.Counters["probe.cluster_metadata_reads"] = m.reads
+	oc.Counters["probe.cluster_leader_epochs"] = len(m.leaderOf)
+	oc.Nontrivial = m.reads >= 6 && len(m.leaderOf) >= 2
+	return oc
+}
+
 func execC07(t *testing.T, prog *hx.Program, dec *simrt.Decider, verbose bool) *hx.Outcome {
+	if prog.Param("cluster", 0) == 1 {
+		return execC07Cluster(t, prog, dec, verbose)
+	}
 	changes, accepted, refused, staleOps := 0, 0, 0, 0
 	oc := runH3(t, prog, dec, verbose, 1, func(h *h3) {
 		timeout := time.Duration(prog.Param("timeout_ms", 1000)) * time.Millisecond
@@ -313,6 +421,11 @@ func execC07(t *testing.T, prog *hx.Program, dec *simrt.Decider, verbose bool) *
 				}
 				h.s.Logf("%s -> %v", what, err)
 				check(what, before, false, isStale, err)
+			case "failraft":
+				// the next metadata operation the controller proposes (an election, an ISR change) fails in
+				// Raft and commits nothing
+				h.s.Logf("the next Raft apply fails")
+				h.cluster.FailApplies = 1
 			case "sleep":
 				d := sleeps[int(op.Arg(0, 0))%len(sleeps)]
 				simrt.Sleep(d)
